@@ -78,6 +78,27 @@ def padded_memarg_batch():
     return b
 
 
+def huge_offset_batch():
+    """static offsets at and above 2^31 (in bounds only in a memory of almost 4 GiB): store then load through the same memarg inside one
+    function, a second load through base+delta with a smaller offset reads the same cell (so the offset is really added, once, unsigned)"""
+    m = Module()
+    m.mems.append((65535, 65535))
+    cases = []
+    inputsets = [('explicit', [(b, v) for b in (0, 1, 8, 0xfff0) for v in (0x11223344, 0xfedcba98)]),
+                 ('explicit', [(b, v) for b in (0, 1, 8, 0xfff0) for v in (0x1122334455667788, 0xfedcba9876543210)])]
+    k = 0
+    for off in (0x7fffffff, 0x80000000, 0x80000001, 0xc0000000, 0xfffe0000):
+        for (sc, lc, t) in ((0x36, 0x28, 'i'), (0x37, 0x29, 'I'), (0x3b, 0x2f, 'i'), (0x3e, 0x35, 'I')):
+            body = local_get(0) + local_get(1) + memop(sc, 0, off) + local_get(0) + memop(lc, 0, off)
+            m.add_func('i' + t, t, (), body, export='f%d' % k)
+            cases.append(Case('f%d' % k, 'i' + t, t, 0 if t == 'i' else 1, -1, '%s/%s offset=%#x: store then load' % (STORES[sc][0], LOADS[lc][0], off))); k += 1
+            # same cell addressed as (base + 0x10000) with offset - 0x10000
+            body = local_get(0) + local_get(1) + memop(sc, 0, off) + local_get(0) + i32_const(0x10000) + op(0x6a) + memop(lc, 0, off - 0x10000)
+            m.add_func('i' + t, t, (), body, export='f%d' % k)
+            cases.append(Case('f%d' % k, 'i' + t, t, 0 if t == 'i' else 1, -1, '%s offset=%#x then %s at base+0x10000 offset=%#x' % (STORES[sc][0], off, LOADS[lc][0], off - 0x10000))); k += 1
+    return Batch(m.encode(), cases, inputsets)
+
+
 def sequence_batch(pairs):
     """store; store; load inside ONE function through two address operands that may or may not overlap at run time: the
     compiler sees all three accesses together (type-based alias analysis, store forwarding at -O2/-O3)"""
@@ -174,6 +195,7 @@ def main(tier):
     if tier == 'thorough':
         jobs.append(('flavours-gccO2', flavour_batch(), {'cc': 'gcc', 'cflags': ('-O2',), 'timeout': 900}))
     jobs.append(('padded-memarg', padded_memarg_batch(), {'cc': 'gcc', 'cflags': ('-O1',), 'timeout': 900}))
+    jobs.append(('huge-static-offsets', huge_offset_batch(), {'cc': 'gcc', 'cflags': ('-O1',), 'timeout': 900}))
     # (c) store/store/load sequences inside one function, optimising compilers
     allpairs = [(a, b) for a in sorted(STORES) for b in sorted(STORES)]
     third = (len(allpairs) + 2) // 3
@@ -223,7 +245,7 @@ def main(tier):
                        'the history reaching it, deduplicated by (pages, all bytes, dropped flag) of the reference; every transition executes the real '
                        'translated code on a fresh instance and compares result, trap, pages and every byte; ASan build; (c) every (store flavour, store flavour, load flavour) triple as ONE function '
                        'store p; store q; load p (and the mirrored order) over overlapping / disjoint address pairs, compiled by gcc and clang at -O2 (thorough: + -O3, -O0): all accesses visible to '
-                       'the optimiser together; every flavour also with padded LEB128 alignment/offset fields. distinct_nontrivial = distinct states')
+                       'the optimiser together; every flavour also with padded LEB128 alignment/offset fields; static offsets 2^31-1 .. 0xfffe0000 in a memory of 65535 pages. distinct_nontrivial = distinct states')
     chk.cov['distinct_nontrivial'] = max(chk.cov['distinct_nontrivial'], states)
     chk.sample({'history': ['memory.grow(1)', 'i64.store(0xfffc,0x8877665544332211)', 'memory.copy(0,0xfffa,12)'], 'compared': 'result, trap, pages, all bytes'})
     chk.assumptions += ['effective addresses >= 2^32 cannot be in bounds (memories are < 4 GiB), so address wrap-around is unobservable under the in-bounds precondition']
